@@ -159,9 +159,14 @@ class Runner(object):
         #      when every earlier step conformed (a deviating prefix was reported there)
         x = self.base
         obs = None
+        key_changed = False
         for j, (rk, ck) in enumerate(hist):
             try:
-                x = x[render_key(rk, ck, self.C, list(objs[j]['meta']), False, variant=(j + len(hist)) % 2)]
+                key = render_key(rk, ck, self.C, list(objs[j]['meta']), False, variant=(j + len(hist)) % 2)
+                key_before = repr(key)
+                x = x[key]
+                # the key object belongs to the caller, who may use it again on a sample laid out differently
+                key_changed = key_changed or repr(key) != key_before
                 obs = samples.project(x)
             except Exception as e:  # noqa
                 obs = {'k': 'raises', 'exc': type(e).__name__}
@@ -172,6 +177,8 @@ class Runner(object):
         d = compare_read(final, obs, True)
         if d is not None and other and obs['k'] == 'raises':
             d = None                       # other forms may be refused
+        if d is None and key_changed:
+            d = 'caller-key-object-changed'
         label = '%s-%s' % (hist[-1][0]['t'], hist[-1][1]['t'])
         if not self.neg_done and final['k'] == 'mat' and len(final['meta']) >= 2 and obs['k'] == 'mat':
             bad = dict(final)
